@@ -256,6 +256,8 @@ func (x *Exec) card(pres Term, ks Sort) Term {
 			// insert / delete
 			fmt.Sprintf("(forall ((p %s) (k %s)) (! (= (%s (store p k true)) (ite (select p k) (%s p) (bvadd (%s p) (_ bv1 64)))) :pattern ((%s (store p k true)))))", ps, ks, name, name, name, name),
 			fmt.Sprintf("(forall ((p %s) (k %s)) (! (= (%s (store p k false)) (ite (select p k) (bvsub (%s p) (_ bv1 64)) (%s p))) :pattern ((%s (store p k false)))))", ps, ks, name, name, name, name),
+			// two distinct present keys mean cardinality >= 2
+			fmt.Sprintf("(forall ((p %s) (k1 %s) (k2 %s)) (! (=> (and (select p k1) (select p k2) (not (= k1 k2))) (bvuge (%s p) (_ bv2 64))) :pattern ((%s p) (select p k1) (select p k2))))", ps, ks, ks, name, name),
 			// a present key means cardinality >= 1
 			fmt.Sprintf("(forall ((p %s) (k %s)) (! (=> (select p k) (bvuge (%s p) (_ bv1 64))) :pattern ((%s p) (select p k))))", ps, ks, name, name),
 		}
